@@ -1,5 +1,6 @@
 import Juniper.Driver.Basic
 import Juniper.Driver.C04
+import Juniper.Driver.C07
 /-! `driver <model>`: runs one executable model behind the line protocol. Core-only (no Mathlib).
 Registration: one `import` line above and one `[("name", handler)],` line below per model
 (this file is merged with git's union driver, so keep one entry per line). -/
@@ -7,6 +8,7 @@ open Juniper.Driver
 
 def handlers : List (String × Handler) := List.flatten [
   [("deque", Juniper.Driver.C04.handler)],
+  [("comb", Juniper.Driver.C07.handler)],
   []]
 
 def main (args : List String) : IO UInt32 := do
